@@ -78,7 +78,7 @@ let dump (s : state) : string =
   Buffer.contents b
 
 let err_msg c = match int_of_n c with
-  | 1 -> "err:Token invalid." | 2 -> "err:No peers nor nodes" | 3 -> "err:No nodes" | _ -> "err:?"
+  | 1 -> "err:Token invalid." | 2 -> "err:No peers nor nodes" | 3 -> "err:No nodes" | 4 -> "err:Invalid port." | _ -> "err:?"
 
 let opt_str (f : string) : n list option =
   if f = "~" || f = "!" then None else Some (bytes_of_hex f)
@@ -92,7 +92,7 @@ let derr_msg = function
   | E_malformed -> "203 Malformed_packet" | E_target_short -> "203 target_string_too_short"
   | E_no_nodes -> "201 No_nodes" | E_ih_short -> "203 info_hash_too_short"
   | E_no_peers_nodes -> "201 No_peers_nor_nodes" | E_token -> "203 Token_invalid."
-  | E_unknown_query -> "204 Unknown_query_type."
+  | E_unknown_query -> "204 Unknown_query_type." | E_port -> "203 Invalid_port."
 
 let show_reply (s : state) (r : reply) : string =
   match r with
